@@ -588,6 +588,31 @@ class _PowC(Op):
         return numpy.power(v, c)
 
 
+@op('powvec')
+class _PowVec(Op):
+    'entrywise power with a NON-uniform constant exponent vector along the last axis (monomial basis x**[0,1,2,..]); 0**0 == 1'
+
+    def params(self, t):
+        shape, k = t
+        return [(tuple(range(shape[-1])),), (tuple(float(j) for j in range(shape[-1], 0, -1)) + (),)][:1 if k == 'i' else 2] if shape and k in 'fi' and shape[-1] >= 2 else []
+
+    def ty(self, p, t):
+        shape, k = t
+        if not shape or len(p[0]) != shape[-1] or k not in 'fi':
+            raise IllTyped
+        return t
+
+    def build(self, ev, p, x):
+        e = numpy.broadcast_to(numpy.array(p[0], dtype=float if x.dtype == float else int), [int(n) for n in x.shape]).copy()
+        return ev.Power(x, ev.constant(e))
+
+    def ref(self, p, v):
+        e = numpy.array(p[0], dtype=v.dtype)
+        if v.dtype.kind == 'f' and ((v < 0) & (e != numpy.round(e))).any():
+            raise OutOfDomain
+        return numpy.power(v, e)
+
+
 @op('inverse', core=True)
 class _Inverse(Op):
     def params(self, t):
@@ -1475,7 +1500,7 @@ def float_value(name, shape, vset):
     return v
 
 
-def valuations(args, nsets=3, exhaustive_int=True, int_values=(0, 1)):
+def valuations(args, nsets=3, exhaustive_int=True, int_values=(0, 1), zero_first=False):
     '''list of env dicts: float/complex arguments take the fixed sets 0..nsets-1, int index arguments and bool
     arguments are enumerated exhaustively over {0,1} per entry (valid as index for every axis of length >= 2)'''
     floats = {n: t for n, t in args.items() if t[1] in 'fc'}
@@ -1501,6 +1526,15 @@ def valuations(args, nsets=3, exhaustive_int=True, int_values=(0, 1)):
                 v = v + 1j * float_value(n + 'i', shape, (vset + 1) % 3)
             base[n] = v
         for c in combos:
+            envs.append(dict(base, **c))
+    if zero_first and floats:
+        # one more valuation with an EXACT zero in the first entry of every float argument (0**0, x*0, ... are in the domain of polynomials)
+        base = {}
+        for n, (shape, kind) in floats.items():
+            v = numpy.array(float_value(n, shape, 0), dtype=float if kind == 'f' else complex)
+            v.reshape(-1)[:1] = 0
+            base[n] = v
+        for c in combos[:1]:
             envs.append(dict(base, **c))
     return envs
 
